@@ -16,3 +16,33 @@ Print Assumptions C06_lets_after_query.
 Theorem C06_shadowing : forall sc n v v', scope_get ((n, v') :: (n, v) :: sc) n = Some v'.
 Proof. exact scope_shadowing. Qed.
 Print Assumptions C06_shadowing.
+
+(** ** the scope a chain of let statements builds, and what a substituted name means *)
+From PQL Require Import Spec.SqlRead Proofs.ReadBack.
+
+(** The documented scoping rules as a function ([let_vals], Proofs/ReadBack.v): a let before the
+    query binds its name to the tree of its value read in the scope of the lets before it, a later
+    let of the same name shadows, lets after the query bind nothing.  Theorem: for every program
+    without parameters whose let values the parser could build, after the statement loop every
+    expression of the query -- in any position (default, join condition), under any wrapping --
+    prints to tokens that the reference reader of coq/Spec/SqlParse.v reads, under the SQL
+    dialect's precedence, as the intended tree with each bound name replaced by the tree of its
+    let value.  In particular a substituted value always acts as ONE operand whatever operators
+    surround the name (the invariant carried through the let chain is that every scope entry was
+    written as an atom-like operand of its value's tree). *)
+Theorem C06_let_values_act_as_operands : forall ss sc' t, lets_wfr ss -> stmt_loop [] None ss = Ok (sc', Some t) ->
+  let '(names, vals) := let_vals [] (fun _ => XWord []) false ss in
+  forall mode e w ps, wfr e -> wx (mkCtx sc' mode) w e = Ok ps ->
+    exists ts, ptoks ps = Some ts /\ Shape w ts (substv vals (trans (bound_in names) (mode_eqb mode ModeJoin) e)).
+Proof. exact let_values_act_as_operands. Qed.
+Print Assumptions C06_let_values_act_as_operands.
+
+(** the invariant itself, from any starting scope (parameters excluded: their text is the
+    caller's responsibility) *)
+Theorem C06_let_chain_scope : forall ss sc names vals q sc' q',
+  lets_wfr ss -> scope_inv sc vals -> (forall n, isb_of sc n = bound_in names n) ->
+  stmt_loop sc q ss = Ok (sc', q') ->
+  let '(names', vals') := let_vals names vals (match q with Some _ => true | None => false end) ss in
+  scope_inv sc' vals' /\ (forall n, isb_of sc' n = bound_in names' n).
+Proof. exact let_chain_scope. Qed.
+Print Assumptions C06_let_chain_scope.
